@@ -4,7 +4,7 @@
    This file holds statements only; every proof is `exact <lemma>` or a few lines over lemmas proved elsewhere. *)
 From Coq Require Import List Arith NArith Bool Lia Permutation.
 Import ListNotations.
-Require Import S1 VParse Py VMeaning VCmp SpecModel SpecOps Order Canon SpecEq VWf VKeyEq SortUnique CanonLaws VObsModel VSortLaws VClauses VClauses2 VNumeric VKeyEqb VDec.
+Require Import S1 VParse Py VMeaning VCmp SpecModel SpecOps Order Canon SpecEq VWf VKeyEq SortUnique CanonLaws VObsModel VSortLaws VClauses VClauses2 VNumeric VKeyEqb VDec VPreOrder.
 Open Scope N_scope.
 
 (* the six Python operators on two parsed strings *)
@@ -376,6 +376,24 @@ Proof.
   split; [exact E|]. rewrite E. apply (ok_refl _ pep440_cmp_ok).
 Qed.
 Print Assumptions C01_public_equal_without_local.
+
+(* 21. pre-releases sort before what they lead to: an accepted pre-release (a/b/rc segment or dev segment, also the dev release of a
+       post-release) is strictly below - for all six operators - the version with those segments dropped, and a version that is not a
+       pre-release is that version *)
+Theorem C01_prerelease_below_its_final a v : Version a = Some v ->
+  Version (vstr (final_of v)) = Some (final_of v) /\
+  (is_prerelease v = true -> strictly_below v (final_of v)) /\ (is_prerelease v = false -> final_of v = v).
+Proof.
+  intros E. pose proof (Version_wf a v E) as (A & B & C & D & F).
+  assert (P : Version (vstr (final_of v)) = Some (final_of v)).
+  { apply Version_vstr. unfold VMeaning.wf_version, final_of; cbn [release pre post dev local]. split; [exact A|]. split; [exact I|].
+    split; [exact C|]. split; [exact I | exact F]. }
+  split; [exact P|]. split.
+  - intros H. apply (C01_below_iff a (vstr (final_of v)) v (final_of v) E P). rewrite prerelease_below_final, H. reflexivity.
+  - unfold is_prerelease. destruct (dev v) eqn:Dv; [discriminate|]. destruct (pre v) eqn:Pv; [discriminate|]. intros _.
+    destruct v; cbn in Dv, Pv |- *; unfold final_of; cbn; now subst.
+Qed.
+Print Assumptions C01_prerelease_below_its_final.
 
 (* non-vacuity: two accepted spellings of equal versions, and a strict chain  1.0.dev1 < 1.0a1 < 1.0 < 1.0+a < 1.0.post0 *)
 Definition nonvac_check : bool :=
